@@ -402,55 +402,69 @@ def model_shapes(rng, idx: int, module: str) -> SdkModel:
     classes, lists of abstract items, X_or_default methods with their snippets."""
     mm = _mm()
     T, O, L, P, U = mmg.TPrim, mmg.TOpt, mmg.TList, mmg.Property, mmg.TOur
-    kind = mmg.Enumeration("Modelling_kind", [mmg.EnumLiteral("Template", "Template"),
+    kind = mmg.Enumeration("Modelling_kind_IEC_61360", [mmg.EnumLiteral("Template", "Template"),
                                                mmg.EnumLiteral("Instance", "Instance"),
-                                               mmg.EnumLiteral("Odd_one", "odd \"one\" & <two>")])
-    level = mmg.Enumeration("Level_type", [mmg.EnumLiteral("Min", "Min"), mmg.EnumLiteral("Max", "Max"),
+                                               mmg.EnumLiteral("Odd_one", "odd \"one\" & <two>"),
+                                               mmg.EnumLiteral("URL_type", "url type"),
+                                               mmg.EnumLiteral("X_2", "X2")])
+    level = mmg.Enumeration("Level_type_X", [mmg.EnumLiteral("Min", "Min"), mmg.EnumLiteral("Max", "Max"),
                                            mmg.EnumLiteral("Nom", "Nom"), mmg.EnumLiteral("Typ", "Typ"),
                                            mmg.EnumLiteral("Not_applicable", "n/a")])
     mm.enumerations = [kind, level]
-    cp = mmg.ConstrainedPrimitive("Short_text", "str")
-    mm.constrained_primitives = [cp]
-    item = mmg.Class("Abstract_item", is_abstract=True, with_model_type=True,
+    # constrained primitives of every primitive type (names with all-caps / digit / one-letter parts)
+    mm.constrained_primitives = [mmg.ConstrainedPrimitive("Short_text", "str"),
+                                 mmg.ConstrainedPrimitive("Small_int_V2", "int"),
+                                 mmg.ConstrainedPrimitive("Ratio_value", "float"),
+                                 mmg.ConstrainedPrimitive("Flag_value_X", "bool"),
+                                 mmg.ConstrainedPrimitive("Blob_value_DER", "bytearray")]
+    item = mmg.Class("Abstract_ID_item", is_abstract=True, with_model_type=True,
                      properties=[P("ID_short", O(T("str")))])
-    leaf_a = mmg.Class("Leaf_text", bases=["Abstract_item"],
-                       properties=[P("text", T("str")), P("more", O(U("Short_text")))])
-    leaf_b = mmg.Class("Leaf_blob", bases=["Abstract_item"],
-                       properties=[P("blob", T("bytearray")), P("opt_blob", O(T("bytearray")))])
+    leaf_a = mmg.Class("URL_resource", bases=["Abstract_ID_item"],
+                       properties=[P("text", T("str")), P("more_A_b", O(U("Short_text")))])
+    leaf_b = mmg.Class("X509_cert", bases=["Abstract_ID_item"],
+                       properties=[P("X509_data", T("bytearray")), P("opt_blob", O(T("bytearray"))),
+                                   P("chain_DER", O(L(U("Blob_value_DER"))))])
     # required properties whose constructor arguments have non-None defaults
     dflts = mmg.Class("Defaults_thing",
                       properties=[P("level", T("int")), P("label", T("str")), P("flag", T("bool")),
                                   P("ratio", T("float")), P("plain", T("int")), P("remark", O(T("str")))])
     # single (non-list) properties typed with LEAF concrete classes below a with_model_type
-    # ancestor (Leaf_blob, Deep_leaf_URL), with a class that has descendants (Leaf_text) and
-    # with the abstract root, at nesting depth >= 2 (Holder.item -> Leaf_container -> ...)
-    mid = mmg.Class("Leaf_container", bases=["Abstract_item"],
-                    properties=[P("items", O(L(U("Abstract_item")))), P("first", O(U("Abstract_item"))),
-                                P("texts", L(U("Leaf_text"))),
-                                P("main_blob", O(U("Leaf_blob"))), P("main_deep", O(U("Deep_leaf_URL"))),
+    # ancestor (X509_cert, Deep_leaf_URL), with a class that has descendants (URL_resource) and
+    # with the abstract root, at nesting depth >= 2 (Holder.item -> A_b_C_container -> ...)
+    mid = mmg.Class("A_b_C_container", bases=["Abstract_ID_item"],
+                    properties=[P("items", O(L(U("Abstract_ID_item")))), P("first_ID", O(U("Abstract_ID_item"))),
+                                P("texts", L(U("URL_resource"))),
+                                P("main_X509", O(U("X509_cert"))), P("main_deep", O(U("Deep_leaf_URL"))),
                                 P("thing", O(U("Defaults_thing"))), P("things", O(L(U("Defaults_thing"))))])
-    deep = mmg.Class("Deep_leaf_URL", bases=["Leaf_text"], properties=[P("URL_count", T("int"))])
+    deep = mmg.Class("Deep_leaf_URL", bases=["URL_resource"], properties=[P("URL_count", T("int"))])
     or_default: Dict[Tuple[str, str], Any] = {}
     extra: Dict[str, str] = {}
     prims = mmg.Class(
         "All_primitives",
         properties=[P("a_bool", T("bool")), P("an_int", T("int")), P("a_float", T("float")),
-                    P("a_str", T("str")), P("some_bytes", T("bytearray")), P("kind", O(U("Modelling_kind"))),
+                    P("a_str", T("str")), P("some_bytes", T("bytearray")), P("kind", O(U("Modelling_kind_IEC_61360"))),
                     P("opt_bool", O(T("bool"))), P("opt_int", O(T("int"))), P("opt_float", O(T("float"))),
-                    P("opt_str", O(T("str"))), P("level", U("Level_type")),
-                    P("strs", O(L(T("str")))), P("ints", L(T("int"))), P("kinds", O(L(U("Modelling_kind"))))],
-        methods=[mmg.Method("kind_or_default", U("Modelling_kind")),
+                    P("opt_str", O(T("str"))), P("level", U("Level_type_X")),
+                    P("strs", O(L(T("str")))), P("ints_V2", L(T("int"))), P("kinds", O(L(U("Modelling_kind_IEC_61360")))),
+                    # lists (required / optional) of every item kind
+                    P("bools", O(L(T("bool")))), P("floats", L(T("float"))), P("blobs", L(T("bytearray"))),
+                    P("opt_blobs", O(L(T("bytearray")))), P("levels_X", L(U("Level_type_X"))),
+                    P("short_texts", O(L(U("Short_text")))), P("small_ints", L(U("Small_int_V2"))),
+                    P("ratio_values", O(L(U("Ratio_value")))), P("flag_values", O(L(U("Flag_value_X")))),
+                    P("blob_values_DER", L(U("Blob_value_DER"))), P("opt_blob_values", O(L(U("Blob_value_DER")))),
+                    P("a_blob_value", U("Blob_value_DER")), P("opt_small_int", O(U("Small_int_V2")))],
+        methods=[mmg.Method("kind_or_default", U("Modelling_kind_IEC_61360")),
                  mmg.Method("opt_bool_or_default", T("bool")),
                  mmg.Method("opt_int_or_default", T("int")),
                  mmg.Method("opt_str_or_default", T("str"))])
-    or_default[("All_primitives", "kind_or_default")] = ("kind", e_enum("Modelling_kind", "Instance"))
+    or_default[("All_primitives", "kind_or_default")] = ("kind", e_enum("Modelling_kind_IEC_61360", "Instance"))
     or_default[("All_primitives", "opt_bool_or_default")] = ("opt_bool", e_bool(True))
     or_default[("All_primitives", "opt_int_or_default")] = ("opt_int", e_int(42))
     or_default[("All_primitives", "opt_str_or_default")] = ("opt_str", e_str("dflt"))
     extra["Types/All_primitives/kind_or_default.py"] = (
-        'def kind_or_default(self) -> "ModellingKind":\n'
+        'def kind_or_default(self) -> "ModellingKindIEC61360":\n'
         '    """Return :py:attr:`kind` if set, and the default otherwise."""\n'
-        "    return self.kind if self.kind is not None else ModellingKind.INSTANCE")
+        "    return self.kind if self.kind is not None else ModellingKindIEC61360.INSTANCE")
     extra["Types/All_primitives/opt_bool_or_default.py"] = (
         "def opt_bool_or_default(self) -> bool:\n"
         "    return self.opt_bool if self.opt_bool is not None else True")
@@ -461,14 +475,14 @@ def model_shapes(rng, idx: int, module: str) -> SdkModel:
         "def opt_str_or_default(self) -> str:\n"
         "    return self.opt_str if self.opt_str is not None else 'dflt'")
     holder = mmg.Class("Holder", with_model_type=bool(idx % 2),
-                       properties=[P("prims", U("All_primitives")), P("item", U("Abstract_item")),
-                                   P("leaf", O(U("Leaf_text"))), P("many", L(U("All_primitives"))),
-                                   P("opt_many", O(L(U("Leaf_container")))),
-                                   P("blob_leaf", U("Leaf_blob")), P("deep_leaf", U("Deep_leaf_URL")),
-                                   P("nested_container", O(U("Leaf_container"))), P("dflt", U("Defaults_thing"))])
+                       properties=[P("prims", U("All_primitives")), P("an_ID_item", U("Abstract_ID_item")),
+                                   P("leaf", O(U("URL_resource"))), P("many", L(U("All_primitives"))),
+                                   P("opt_many", O(L(U("A_b_C_container")))),
+                                   P("blob_leaf", U("X509_cert")), P("deep_leaf", U("Deep_leaf_URL")),
+                                   P("nested_container", O(U("A_b_C_container"))), P("dflt", U("Defaults_thing"))])
     mm.classes = [item, leaf_a, leaf_b, mid, deep, prims, dflts, holder]
     with_ctor_defaults(mm, dflts, {"level": "3", "label": '"x"', "flag": "True"})
-    # the real Leaf_text has a concrete descendant: it needs with_model_type (inherited)
+    # the real URL_resource has a concrete descendant: it needs with_model_type (inherited)
     return SdkModel(f"shapes-{idx}", mm, module, or_default=or_default, extra_snippets=extra)
 
 
@@ -617,7 +631,9 @@ class InstanceGen:
         name = self.rng.choice(options)
         return self.new_obj(name, depth)
 
-    def new_obj(self, name: str, depth: int) -> Dict[str, Any]:
+    def new_obj(self, name: str, depth: int, force: Optional[Dict[str, str]] = None) -> Dict[str, Any]:
+        """``force``: property name -> concrete class to put at that (class-typed or
+        list-of-class) position of THIS object."""
         c = find_cls(self.lite, name)
         oid = self.next_id
         self.next_id += 1
@@ -625,7 +641,16 @@ class InstanceGen:
         fields = []
         for p in c["props"]:
             needs_obj = p["type"]["k"] == "cls"
-            if p["optional"] and (self.rng.random() < 0.45 or (depth <= 0 and (needs_obj or p["type"]["k"] == "list"))):
+            if force and p["name"] in force:
+                forced = self.new_obj(force[p["name"]], depth - 1)
+                if p["type"]["k"] == "list":
+                    items = [forced]
+                    if self.rng.random() < 0.5:
+                        items.insert(self.rng.randint(0, 1), self.value(p["type"]["items"], depth - 1))
+                    fields.append(e_list(items))
+                else:
+                    fields.append(forced)
+            elif p["optional"] and (self.rng.random() < 0.45 or (depth <= 0 and (needs_obj or p["type"]["k"] == "list"))):
                 fields.append(None)
             else:
                 fields.append(self.value(p["type"], depth - 1))
@@ -633,6 +658,21 @@ class InstanceGen:
         # only completed objects are shared (no cycles)
         self.pool.setdefault(name, []).append(o)
         return o
+
+
+def class_positions(lite: Dict[str, Any]) -> List[Tuple[str, str, str]]:
+    """(holder class, property, concrete class) for every class-typed or list-of-class
+    property of every concrete class and every class that may stand there."""
+    out = []
+    for c in lite["classes"]:
+        if c["abstract"]:
+            continue
+        for p in c["props"]:
+            t = p["type"]["items"] if p["type"]["k"] == "list" else p["type"]
+            if t["k"] == "cls":
+                for d in concrete_options(lite, t["n"]):
+                    out.append((c["name"], p["name"], d))
+    return out
 
 
 def instantiable_ranks(lite: Dict[str, Any]) -> Dict[str, int]:
